@@ -1,8 +1,15 @@
 package checks
 
 import (
+	"bytes"
 	"fmt"
 	"strings"
+
+	"github.com/ipld/go-ipld-prime/codec/dagcbor"
+	"github.com/ipld/go-ipld-prime/codec/dagjson"
+	"github.com/ipld/go-ipld-prime/datamodel"
+	"github.com/ipld/go-ipld-prime/node/bindnode"
+	"github.com/ipld/go-ipld-prime/schema"
 
 	"verif/internal/core"
 )
@@ -217,9 +224,9 @@ func c09Batch(c *core.Ctx, cases []c09Case, r *core.Rand, report func(string, co
 
 func runC09(c *core.Ctx) error {
 	c.Rule = "case = (random type system as in C08) x (level: type | representation) x (a generated inhabitant's input, or one local mutation of it: see distribution `mutation:*`) x (4 routes); non-trivial = mutated, or an input of >= 3 nodes; distinct by (type, level, input)"
-	c.Explanation = "model: lean/IpldModel/Model/Schema.lean (build with Engine.ideal / Engine.bindnode, conforms, conformsRepr); no theorems registered yet for C09 - this run is correspondence + oracle only"
+	c.Explanation = "model: lean/IpldModel/Model/Schema.lean (build with Engine.ideal / Engine.bindnode, conforms, conformsRepr); theorems Props/C09.lean: ofType_eq, ofRepr_isOk_eq, ideal_never_panics, built_conforms, accepted_by_every_engine; typed maps keyed by an enum are checked against the generator's statement of conformance (oracle only: the model's maps have string keys)"
 	c.Assumptions = []string{
-		"engine: reflection binding with inferred Go types only (generated code: C13)",
+		"engine: reflection binding with inferred and with caller-supplied Go types (generated code: C13)",
 		"ints within int64 (width handling is C19), finite non-integral floats, UTF-8 strings, no map key \"/\"",
 		"`any` does not contain null at its top unless the slot is nullable (the builder refuses it; taken as the type's meaning)",
 	}
@@ -236,6 +243,7 @@ func runC09(c *core.Ctx) error {
 	}); err != nil {
 		return err
 	}
+	c09EnumKeys(c, c.Rand.Fork(), c.Pick(150, 20000))
 	nSchemas := c.Pick(5000, 250000)
 	cfg := core.DefaultSchemaCfg
 	var batch []c09Case
@@ -332,4 +340,156 @@ func hasRepeatedKey(v core.Val) bool {
 		}
 	}
 	return false
+}
+
+// c09EnumKeys: typed maps whose KEY type is a string-represented enum (keys are not plain strings: at type level a key
+// is a member name, at representation level the member's representation string).  Every way of supplying the key
+// (AssembleEntry, key assembler, AssignNode of a whole map, dag-json, dag-cbor) must accept exactly the valid keys of
+// the level; accepted maps read back with the keys of the level asked for.
+func c09EnumKeys(c *core.Ctx, r *core.Rand, n int) {
+	names := []string{"Yes", "No", "Maybe", "a", "b", "Red"}
+	reprs := []string{"y", "n", "m", "A", "B", "r", "Yes", "a"}
+	for i := 0; i < n; i++ {
+		k := 2 + r.Intn(3)
+		perm := r.Perm(len(names))
+		var members []string
+		ren := schema.EnumRepresentation_String{}
+		rp := r.Perm(len(reprs))
+		for j := 0; j < k; j++ {
+			m := names[perm[j]]
+			members = append(members, m)
+			if r.Bool() {
+				ren[m] = reprs[rp[j]]
+			}
+		}
+		// a representation string must not be ambiguous: no two members with the same representation
+		seen := map[string]bool{}
+		ok := true
+		reprOf := map[string]string{}
+		for _, m := range members {
+			rs := m
+			if x, has := ren[m]; has {
+				rs = x
+			}
+			if seen[rs] {
+				ok = false
+			}
+			seen[rs] = true
+			reprOf[m] = rs
+		}
+		if !ok {
+			continue
+		}
+		ts, errs := schema.SpawnTypeSystem(schema.SpawnString("String"), schema.SpawnInt("Int"),
+			schema.SpawnEnum("E", members, ren), schema.SpawnMap("M", "E", "Int", false))
+		if errs != nil {
+			continue
+		}
+		tp := bindnode.Prototype(nil, ts.TypeByName("M"))
+		for _, lvl := range []string{"type", "repr"} {
+			valid := map[string]string{} // key text at this level → member
+			for _, m := range members {
+				if lvl == "type" {
+					valid[m] = m
+				} else {
+					valid[reprOf[m]] = m
+				}
+			}
+			cands := append(append([]string{}, names...), reprs...)
+			cands = append(cands, "zz", "")
+			key := cands[r.Intn(len(cands))]
+			second := ""
+			for v := range valid {
+				if v != key {
+					second = v
+				}
+			}
+			input := core.Map(core.KV{K: []byte(key), V: core.Int(1)})
+			if second != "" && r.Bool() {
+				input.M = append(input.M, core.KV{K: []byte(second), V: core.Int(2)})
+			}
+			_, want := valid[key]
+			for _, route := range []string{"entry", "keyasm", "node", "json", "cbor"} {
+				caseID := fmt.Sprintf("c09.enumkeys %s %s members=%v renames=%v INPUT %s", lvl, route, members, ren, input.Term())
+				var np datamodel.NodePrototype = tp
+				if lvl == "repr" {
+					np = tp.Representation()
+				}
+				var built datamodel.Node
+				err, panicked, pv := core.Catch(func() error {
+					nb := np.NewBuilder()
+					switch route {
+					case "entry":
+						if err := core.Assemble(nb, input, nil); err != nil {
+							return err
+						}
+					case "keyasm":
+						ma, err := nb.BeginMap(int64(len(input.M)))
+						if err != nil {
+							return err
+						}
+						for _, e := range input.M {
+							if err := ma.AssembleKey().AssignString(string(e.K)); err != nil {
+								return err
+							}
+							if err := core.Assemble(ma.AssembleValue(), e.V, nil); err != nil {
+								return err
+							}
+						}
+						if err := ma.Finish(); err != nil {
+							return err
+						}
+					case "node":
+						bn, err := core.BuildBasic(input, nil)
+						if err != nil {
+							return err
+						}
+						if err := nb.AssignNode(bn); err != nil {
+							return err
+						}
+					case "json":
+						var sb strings.Builder
+						if !core.RawJSON(&sb, input) {
+							return nil
+						}
+						if err := dagjson.Decode(nb, strings.NewReader(sb.String())); err != nil {
+							return err
+						}
+					case "cbor":
+						if err := dagcbor.Decode(nb, bytes.NewReader(core.RawCBOR(nil, input))); err != nil {
+							return err
+						}
+					}
+					built = nb.Build()
+					return nil
+				})
+				c.Count(caseID, true)
+				c.Dist("enum-keyed-map:" + lvl + ":" + route)
+				if panicked {
+					c.Fail("C09/panic", core.Replay{Kind: "oracle", Case: caseID, Impl: fmt.Sprint(pv)})
+					continue
+				}
+				got := err == nil
+				if got != want {
+					c.Fail("C09/enum-keyed-map-acceptance", core.Replay{Kind: "oracle", Case: caseID, Impl: fmt.Sprintf("accepted=%v (%v)", got, err), Expected: fmt.Sprintf("accepted=%v", want),
+						Detail: "a typed map keyed by an enum accepts exactly the members' names (type level) / representation strings (representation level)"})
+					continue
+				}
+				if got && built != nil {
+					// read back at both levels
+					tn := built.(schema.TypedNode)
+					wantT, wantR := core.Map(), core.Map()
+					for _, e := range input.M {
+						m := valid[string(e.K)]
+						wantT.M = append(wantT.M, core.KV{K: []byte(m), V: e.V})
+						wantR.M = append(wantR.M, core.KV{K: []byte(reprOf[m]), V: e.V})
+					}
+					gt, gr := termOfOrErrSafe(tn, nil), termOfOrErrSafe(tn.Representation(), nil)
+					if gt != wantT.Term() || gr != wantR.Term() {
+						c.Fail("C09/enum-keyed-map-content", core.Replay{Kind: "oracle", Case: caseID, Impl: gt + " | " + gr, Expected: wantT.Term() + " | " + wantR.Term()})
+					}
+				}
+			}
+		}
+	}
 }
